@@ -835,6 +835,8 @@ class Interp:
             return Opaque('cerr')
         if s in ('std::endl', 'std::scientific', 'std::fixed'):
             return Opaque(s)
+        if s in ('EXIT_SUCCESS', 'EXIT_FAILURE'):
+            return 0 if s == 'EXIT_SUCCESS' else 1
         if s == 'GM2CALC_VERSION':
             return 'GM2CALC_VERSION'
         raise Unsupported('unknown name %s at %s:%d' % (name, self.cur_file(), self.cur_line))
@@ -1242,6 +1244,24 @@ class Interp:
     def ev_Log(self, e):
         self.fire('log-macro:' + e.level)
         txt = ' '.join(t.v for t in e.toks)
+        # evaluate the streamed message where possible (message variables, string literals); the raw tokens otherwise
+        try:
+            toks = [Tok(t.k, t.v, t.pos, t.line) for t in e.toks] + [Tok('eof', '', 0, 0)]
+            ex = cxx.Parser(toks, known_types=self.w.known_types).parse_expr()
+            parts = []
+            def flat(x):
+                if isinstance(x, Binary) and x.op == '<<':
+                    flat(x.l); flat(x.r)
+                else:
+                    parts.append(x)
+            flat(ex)
+            vals = []
+            for p_ in parts:
+                v = self.ev(p_)
+                vals.append(v if isinstance(v, str) else str(v)[:60])
+            txt = ''.join(vals)
+        except (EvalError, cxx.ParseError, Thrown):
+            pass
         self.sym.effects.append((e.level, txt, self.cur_line))
         return None
 
@@ -1589,7 +1609,7 @@ class Interp:
             this = self.this_obj()
             if this is not None and s in this.f and '::' not in s:
                 v = this.f[s]
-                if isinstance(v, (Mat, Closure)):
+                if isinstance(v, (Mat, Closure)) or (callable(v) and not isinstance(v, (Obj,))):
                     args = [self.ev(a) for a in e.args]
                     return self.call_value(v, args)
             # stubs take precedence over everything else
